@@ -83,6 +83,11 @@ CHECKS = {
    note="Trusted: Coq kernel/vm_compute + primitive floats (Print Assumptions lists them; heun_exact_linear is closed); Model/MeanField.v; Python harness. System states are an oracle (TEMPO vs PT-TEMPO equality is C02).",
    technique="Coq proof (induction over steps; field arithmetic on Q) + bit-exact call-trace correspondence on primitive floats",
    design="3/C09"),
+ "C10": dict(
+   text="Theorems (Coq): for every chain length the Trotter layers are (even, odd) / (even, odd, odd, even), every bond lies in exactly one layer, gates of a layer are at least two sites apart (layers_spec); every site's Liouvillian is counted with total weight one (site_factors); for ANY gate function and chain state, computing all gates of a layer of pairwise separated gates from the pre-layer snapshot and writing the results back equals the sequential application (snapshot_eq_sequential), and the results may be written back in any order (any_completion_order, induction over Permutation) — so the multi-thread / multi-process branches equal the sequential one regardless of completion order. Tied to /repo exactly for the layer structure and the site weights extracted from get_nn_full_liouvillians; searched: uncoupled chains vs single-site compute_dynamics with PT-TEMPO tensors, two-site and commuting-gate chains vs dense expm with partial-trace consistency and norm, and the three execution modes in fresh interpreters incl. randomly delayed gate completion.",
+   note="Trusted: Coq kernel/vm_compute; Model/Chain.v; Python harness. Partial: whether worker pools start on the host, and Trotter error of long non-commuting chains, are outside the model (the former is exercised in child interpreters).",
+   technique="Coq proof (lists, Permutation, footprint commutation) + exact structural correspondence + exactness / execution-mode search",
+   design="3/C10"),
 }
 
 NOT_YET = {}
